@@ -70,13 +70,15 @@ def _alarm(signum, frame):
 
 
 HANGS_SEEN = [0]
+WAIT_LIMIT = 4.0           # seconds a call that never has to wait may take before it is counted as waiting
+REAL_HANGS = []            # kinds of the calls that really ran into the alarm (as opposed to being taken to wait)
 HANG_KINDS = {}
 
 
 def guarded(fn, *a):
     """Call fn in this thread; a wait that should not happen is broken by SIGALRM."""
     old = signal.signal(signal.SIGALRM, _alarm)
-    signal.setitimer(signal.ITIMER_REAL, 3.0)
+    signal.setitimer(signal.ITIMER_REAL, WAIT_LIMIT)
     try:
         return fn(*a)
     finally:
@@ -106,6 +108,7 @@ class Safe:
         except Hang:
             HANG_KINDS[kind] = HANG_KINDS.get(kind, 0) + 1
             HANGS_SEEN[0] += 1
+            REAL_HANGS.append(kind)
             self.hung = kind
             raise
 
@@ -214,7 +217,36 @@ def dump_state(sem):
         return 'NA'
 
 
+def confirmed(fn):
+    """A call that ran into the alarm is made once more on a fresh object (the whole history is
+    run again): only a wait that repeats is reported -- a stall of the machine does not repeat."""
+    def wrapper(*a, **k):
+        n0 = len(REAL_HANGS)
+        r = fn(*a, **k)
+        if len(REAL_HANGS) == n0:
+            return r
+        first = REAL_HANGS[n0:]
+        n1 = len(REAL_HANGS)
+        r2 = fn(*a, **k)
+        if len(REAL_HANGS) > n1 or any(HANG_KINDS.get(kd, 0) >= 3 for kd in first):
+            return r2 if len(REAL_HANGS) > n1 else r      # it waited again (or is known to wait)
+        for kd in first:                                  # transient: forget the first attempt
+            HANG_KINDS[kd] = max(0, HANG_KINDS.get(kd, 0) - 1)
+            HANGS_SEEN[0] = max(0, HANGS_SEEN[0] - 1)
+        del REAL_HANGS[n0:]
+        return r2
+    return wrapper
+
+
 def run_impl_S(case):
+    return confirmed(_run_impl_S)(case)
+
+
+def oracle(cap, ops, second_pass=True):
+    return confirmed(_oracle)(cap, ops, second_pass)
+
+
+def _run_impl_S(case):
     utils = impl()
     cap, ops = case
     if HANGS_SEEN[0] >= 3:
@@ -252,7 +284,7 @@ def canon_S(i, m):
 
 # ---------------------------------------------------------------- oracle
 
-def oracle(cap, ops, second_pass=True):
+def _oracle(cap, ops, second_pass=True):
     """C12 stated on the implementation's own behaviour for one history.
     Returns a list of (clause, text)."""
     utils = impl()
@@ -613,13 +645,15 @@ def run_thread_scenario(ctx, name, cap, script, use_model=True):
     """Drive the real class with real threads; build the SemaConc schedule the
     observation corresponds to; compare.  Returns failure text or None."""
     utils = impl()
-    raw = utils.SlidingWindowSemaphore(cap)
-    sem = MainGuard(raw)
-    try:
-        return _run_thread_scenario(ctx, name, cap, script, use_model, utils, raw, sem)
-    except Hang:
-        return (f'{name}: {sem.doing} in the main thread did not return within 3 s although it never has to wait '
-                f'(script {script})')
+    for attempt in (0, 1):
+        raw = utils.SlidingWindowSemaphore(cap)
+        sem = MainGuard(raw)
+        try:
+            return _run_thread_scenario(ctx, name, cap, script, use_model, utils, raw, sem)
+        except Hang:
+            if attempt == 1:      # it waited on a fresh object again: not a stall of the machine
+                return (f'{name}: {sem.doing} in the main thread did not return within {WAIT_LIMIT} s although it never '
+                        f'has to wait (script {script})')
 
 
 def _run_thread_scenario(ctx, name, cap, script, use_model, utils, raw, sem):
